@@ -195,11 +195,11 @@ MDFC = "gemseo.formulations.mdf.MDF"
 MDA = "gemseo.mda.base_mda.BaseMDA"
 DISC = "gemseo.core.discipline.discipline.Discipline"
 DOPT = "gemseo.formulations.disciplinary_opt.DisciplinaryOpt"
-schema(DISC + ".io#c17b", {"input_grammar": TSet(TStr)})  # a grammar is seen through `name in grammar` / iteration only: its set of names
+schema(DISC + ".io#c17b", {"input_grammar": TSet(TStr), "output_grammar": TSet(TStr)})  # a grammar is seen through `name in grammar` / iteration only: its set of names
 schema(MDA + "#c17b", {"coupling_structure": M17.CSREC, "io": TObj(DISC + ".io", schema_key=DISC + ".io#c17b")})
-schema(BF + "#unused", {"c17_top_level_disciplines": DISCS,  # ghost: what get_top_level_disciplines() returns (abstract in BaseFormulation)
+schema(BF + "#unused", {"_BaseFormulation__disciplines": DISCS, "c17_top_level_disciplines": DISCS,  # ghost: what get_top_level_disciplines() returns (abstract in BaseFormulation)
                         "optimization_problem": TObj(OP, schema_key=OP + "#c17mdf")})
-schema(MDFC + "#update", {"mda": TObj(MDA, schema_key=MDA + "#c17b"), "optimization_problem": TObj(OP, schema_key=OP + "#c17mdf")})
+schema(MDFC + "#update", {"_BaseFormulation__disciplines": DISCS, "mda": TObj(MDA, schema_key=MDA + "#c17b"), "optimization_problem": TObj(OP, schema_key=OP + "#c17mdf")})
 
 
 @register
@@ -334,7 +334,7 @@ class MdfUpdateDesignSpace(Contract):
 PCHAIN = "gemseo.core.chains.parallel_chain.MDOParallelChain"
 schema(PCHAIN + "#c17b", {})
 schema(MDA + "#opaque", {})
-schema(MDFC + "#top", {"mda": TObj(MDA, schema_key=MDA + "#opaque")})
+schema(MDFC + "#top", {"_BaseFormulation__disciplines": DISCS, "mda": TObj(MDA, schema_key=MDA + "#opaque")})
 
 
 @register
@@ -471,3 +471,44 @@ class IdfInit(Contract):
             ("design-space-unchanged", z3.And(d1.n == d0.n, d1.keys == d0.keys, d1.member == d0.member, d1.vals == d0.vals)),
             ("normalize-constraints-is-the-setting", s1.normalize_constraints == s1._settings.normalize_constraints),
         ] + _added(c, L.n, L)
+
+
+# ============================================================================ MDF.__init__
+MDFSET = TRec("MDFSettingsC17", {"main_mda_name": TStr, "main_mda_settings": TVal})
+schema(MDFC + "#init", {"_BaseFormulation__disciplines": DISCS, "_settings": MDFSET, "mda": TObj(MDA, schema_key=MDA + "#c17b"),
+                        "optimization_problem": TObj(OP, schema_key=OP + "#c17mdf")})
+
+
+@register
+class MdfInit(Contract):
+    """MDF(disciplines, objective, design space): after construction no coupling of the MDA is a design variable; the design space given by the
+    user is the one of the problem and keeps exactly its variables that are inputs of the MDA and no couplings (with their definitions)."""
+
+    targets = (MDFC + ".__init__",)
+    prop = ("C17",)
+    self_schema = MDFC + "#init"
+    c17b = True
+    c17b_init = True
+    c17b_mda_schema = MDA + "#c17b"
+    callee_variants = {BF + "._remove_unused_variables": "mdf"}
+    params = {"disciplines": DISCS, "objective_name": TStr, "design_space": TObj(D2.DS)}
+    modifies = ("self", "design_space")
+
+    def requires(self, c):
+        return D2.wf(c.old.design_space)
+
+    def ensures(self, c):
+        s1 = c.new.self
+        v0, v1 = D2.V(c.old.design_space), D2.V(c.new.design_space)
+        cp = s1.mda.coupling_structure.all_couplings
+        g = s1.mda.io.input_grammar
+        j = z3.Int("j!mi")
+        x = z3.Const("x!mi", STR)
+        return D2.wf(c.new.design_space) + [
+            ("problem-holds-the-design-space", z3.BoolVal(s1.optimization_problem.design_space.ref == c.arg("design_space"))),
+            ("no-coupling-is-a-design-variable", z3.ForAll([j], z3.Implies(z3.And(0 <= j, j < cp.n), z3.Not(v1.has(cp.elems[j]))), patterns=[cp.elems[j]])),
+            ("only-entry-variables-with-their-definitions", z3.ForAll([x], z3.Implies(v1.has(x), z3.And(v0.has(x), v1.vals[x] == v0.vals[x])), patterns=[v1.has(x)])),
+            ("only-inputs-of-the-mda-are-kept", z3.ForAll([x], z3.Implies(v1.has(x), g.member[x]), patterns=[v1.has(x)])),
+            ("design-variables-that-are-inputs-of-the-mda-and-no-couplings-are-kept",
+             z3.ForAll([x], z3.Implies(z3.And(v0.has(x), g.member[x], z3.Not(M17._among(cp, x, cp.n))), v1.has(x)), patterns=[v0.has(x)])),
+        ]
